@@ -41,23 +41,26 @@ const (
 
 // Call is one API request as seen by the server.
 type Call struct {
-	Idx    int      `json:"idx"`
-	Verb   string   `json:"verb"`
-	Res    string   `json:"res"` // resource[/subresource]
-	Name   string   `json:"name"`
-	Det    string   `json:"det"`
-	Ints   []int    `json:"ints"`
-	Result string   `json:"result"`
-	Strs   []string `json:"strs"`
-	obj    runtime.Object
-	old    runtime.Object // stored object just before an update
+	Idx     int      `json:"idx"`
+	PlanIdx int      `json:"-"` // position among the plan calls (0 for lists)
+	Verb    string   `json:"verb"`
+	Res     string   `json:"res"` // resource[/subresource]
+	Name    string   `json:"name"`
+	Det     string   `json:"det"`
+	Ints    []int    `json:"ints"`
+	Result  string   `json:"result"`
+	Strs    []string `json:"strs"`
+	obj     runtime.Object
+	old     runtime.Object // stored object just before an update
 }
 
 // Fault describes an injected failure at one call index.
 type Fault struct {
+	K       int    // position among the plan calls of one reconcile (1-based, list calls not counted); 0 if List is set
 	Kind    string // ServerError | Conflict | NotFound | AlreadyExists | Timeout
 	Applied bool   // the request took effect although an error is reported
 	Die     bool   // the process dies here (before the call takes effect unless Applied)
+	List    int    // 1-based index among the list calls of one reconcile; 0 if K is set
 }
 
 type crashSentinel struct{ at int }
@@ -69,14 +72,16 @@ type API struct {
 	now    int64 // logical seconds, advanced on every create
 	calls  []*Call
 	n      int // number of calls since ResetLog (reads included)
-	faults map[int]Fault
+	np     int // number of plan calls (everything but lists) since ResetLog
+	nl     int // number of list calls since ResetLog
+	faults []Fault
 	before func(k int, verb, res, name string)
 	inHook bool
 	quiet  bool // do not log (used by harness-side accesses through clients)
 }
 
 func NewAPI() *API {
-	return &API{objs: map[string]map[string]runtime.Object{}, faults: map[int]Fault{}, now: 1000}
+	return &API{objs: map[string]map[string]runtime.Object{}, now: 1000}
 }
 
 func (m *API) Reset() {
@@ -87,15 +92,27 @@ func (m *API) Reset() {
 
 func (m *API) ResetLog() {
 	m.calls = nil
-	m.n = 0
-	m.faults = map[int]Fault{}
+	m.n, m.np, m.nl = 0, 0, 0
+	m.faults = nil
 	m.before = nil
 }
 
 // ResetLogKeepFaults starts a fresh call log but keeps the fault plan and the interleaving hook.
 func (m *API) ResetLogKeepFaults() {
 	m.calls = nil
-	m.n = 0
+	m.n, m.np, m.nl = 0, 0, 0
+}
+
+func (m *API) faultFor(isList bool) (Fault, bool) {
+	for _, f := range m.faults {
+		if isList && f.List == m.nl && f.List > 0 {
+			return f, true
+		}
+		if !isList && f.K == m.np && f.K > 0 {
+			return f, true
+		}
+	}
+	return Fault{}, false
 }
 
 func meta(o runtime.Object) metav1.Object { return o.(metav1.Object) }
@@ -206,6 +223,11 @@ func (m *API) React(a core.Action) (bool, runtime.Object, error) {
 		c.Res = "apps.statefulsets"
 	}
 	m.n++
+	if c.Verb == "list" {
+		m.nl++
+	} else {
+		m.np++
+	}
 	c.Name = actionName(a)
 	if m.before != nil && !m.inHook {
 		m.inHook = true
@@ -213,7 +235,19 @@ func (m *API) React(a core.Action) (bool, runtime.Object, error) {
 		m.inHook = false
 	}
 	m.calls = append(m.calls, c)
-	if f, ok := m.faults[c.Idx]; ok {
+	if c.Verb == "create" || c.Verb == "update" {
+		if o := a.(core.UpdateAction).GetObject(); o != nil {
+			c.obj = o.DeepCopyObject()
+			if old, ok := m.objs[res][meta(o).GetName()]; ok && c.Verb == "update" {
+				c.old = old.DeepCopyObject()
+			}
+		}
+	}
+	c.PlanIdx = m.np
+	if c.Verb == "patch" {
+		c.Det = string(a.(core.PatchAction).GetPatch())
+	}
+	if f, ok := m.faultFor(c.Verb == "list"); ok {
 		if f.Die && !f.Applied {
 			c.Result = "Died"
 			panic(crashSentinel{c.Idx})
